@@ -104,9 +104,13 @@ class C12(Check):
             if out == "no_progress":
                 v.violate("C12", "no_progress/" + op, kinds, ev.get("exc"), ev["seq"], "A")
                 continue
+            if out == "slow_convergence":
+                v.probe("step_cap_on_monotone_descent(inconclusive)")
+                tainted = True
+                continue
             if out == "solution":
                 f = self.evaluate_event(plan, result, ev)
-                v.unspecified += f.unspecified
+                v.absorb_unspecified(f)
                 v.rules_checked += f.checked
                 for it in f.items:
                     if it["prop"] in VALIDITY_PROPS:
